@@ -127,7 +127,15 @@ func newStore(kind string, c *tcase) storage.Store {
 }
 
 // runOne executes one text; panics of the calling goroutine are recovered, hangs are detected by a watchdog.
+// patient: the confirmation run of a case that looked hung or leaking (a loaded machine must not turn into an alarm):
+// 60 s watchdog, 10 s for goroutines to unwind.
+var patient bool
+
 func runOne(storeKind string, c *tcase) (outcome, detail string, rows int) {
+	watchdog, unwind := 5*time.Second, 300*time.Millisecond
+	if patient {
+		watchdog, unwind = 60*time.Second, 10*time.Second
+	}
 	text := c.Text
 	before := runtime.NumGoroutine()
 	type out struct {
@@ -174,7 +182,7 @@ func runOne(storeKind string, c *tcase) (outcome, detail string, rows int) {
 	select {
 	case r := <-ch:
 		// goroutines started on behalf of the call must be gone (allow them a moment to unwind)
-		deadline := time.Now().Add(300 * time.Millisecond)
+		deadline := time.Now().Add(unwind)
 		for runtime.NumGoroutine() > before && time.Now().Before(deadline) {
 			time.Sleep(2 * time.Millisecond)
 		}
@@ -184,8 +192,8 @@ func runOne(storeKind string, c *tcase) (outcome, detail string, rows int) {
 			return "leak", fmt.Sprintf("%d goroutines left after %s; %s", n-before, r.o, leakSite(string(buf))), r.n
 		}
 		return r.o, r.d, r.n
-	case <-time.After(5 * time.Second):
-		return "hang", "no result after 5s", 0
+	case <-time.After(watchdog):
+		return "hang", fmt.Sprintf("no result after %v", watchdog), 0
 	}
 }
 
@@ -319,6 +327,50 @@ var raceCorpus = []string{
 	`select ?s from from ?a ?b ?c ?d "x"^^type:nosuch ;`, `insert ?a ?b ?c ?d ?e _:`, `show ?a ?b ?c ?d #`,
 }
 
+// templates: products of statement shapes whose execution path depends on the KIND of value a template position gets
+// (node / blank node / literal / predicate / time anchor, constant or bound), with and without the `;` reification, and of
+// the SELECT modifiers with boundary limits.  Over graph ?a of the populated store the WHERE binds ?s (node), ?l (int64
+// literal), ?t (time anchor), ?o (node), ?pp (predicate) and ?x (node, literal and predicate valued).
+func templates() []string {
+	const where = `{?s "age"@[] ?l . ?s "bought"@[?t] ?o . ?s ?pp ?x}`
+	subjects := []string{`?s`, `/u<k>`, `_:v`, `?o`}
+	preds := []string{`"k"@[]`, `"k"@[?t]`, `?pp`, `"k"@[2016-01-01T00:00:00Z]`}
+	objs := []string{`?o`, `?l`, `?pp`, `?x`, `?t`, `"cm"^^type:text`, `"7"^^type:int64`, `/u<z>`, `_:b`, `"k"@[]`, `"k"@[?t]`, `"k"@[2016-01-01T00:00:00Z]`}
+	var out []string
+	k := 0
+	for _, p1 := range preds {
+		for _, o1 := range objs {
+			sub := subjects[k%len(subjects)]
+			k++
+			out = append(out, fmt.Sprintf(`construct {%s %s %s} into ?b from ?a where %s;`, sub, p1, o1, where))
+			if sub != `_:v` && o1 != `_:b` {
+				out = append(out, fmt.Sprintf(`deconstruct {%s %s %s} in ?a from ?a where %s;`, sub, p1, o1, where))
+			}
+		}
+	}
+	for i, o1 := range objs {
+		for j, p2 := range preds {
+			for l, o2 := range objs {
+				sub := subjects[(i+j+l)%len(subjects)]
+				p1 := preds[(i+l)%len(preds)]
+				out = append(out, fmt.Sprintf(`construct {%s %s %s ; %s %s} into ?b from ?a where %s;`, sub, p1, o1, p2, o2, where))
+			}
+		}
+		// three pairs, and a second triple after the reified one
+		out = append(out, fmt.Sprintf(`construct {?s "k"@[] %s ; "u"@[] "cm"^^type:text ; ?pp ?x . _:v "of"@[?t] %s} into ?b, ?g from ?a where %s;`, o1, o1, where))
+	}
+	for _, lim := range []string{`"0"^^type:int64`, `"1"^^type:int64`, `"2"^^type:int64`, `"1000000"^^type:int64`, `"9223372036854775807"^^type:int64`} {
+		for _, ord := range []string{``, ` order by ?s asc`, ` order by ?n desc, ?s`} {
+			for _, hav := range []string{``, ` having ?s = /u<joe>`} {
+				out = append(out, fmt.Sprintf(`select ?s, ?x as ?n from ?a where {?s ?pp ?x}%s%s limit %s;`, ord, hav, lim))
+				out = append(out, fmt.Sprintf(`select ?s, count(?x) as ?n from ?a where {?s ?pp ?x} group by ?s%s%s limit %s;`, ord, hav, lim))
+				out = append(out, fmt.Sprintf(`select ?s, ?x as ?n from ?a where {/u<nobody> "none"@[] ?s . ?s ?pp ?x}%s%s limit %s;`, ord, hav, lim))
+			}
+		}
+	}
+	return out
+}
+
 func gen(seed int64, n, exhaust int) []tcase {
 	rng := rand.New(rand.NewSource(seed))
 	g := gram.FromBQL(grammar.BQL())
@@ -326,6 +378,9 @@ func gen(seed int64, n, exhaust int) []tcase {
 	var cases []tcase
 	for _, c := range corpus {
 		cases = append(cases, tcase{Kind: "corpus", Text: c})
+	}
+	for _, c := range templates() {
+		cases = append(cases, tcase{Kind: "template", Text: c})
 	}
 	reps := 40
 	if n > 5000 {
@@ -465,6 +520,8 @@ func main() {
 	n := flag.Int("n", 1000, "number of mutated/random cases")
 	exhaust := flag.Int("exhaust", 2, "exhaustive token-kind sequences up to this length")
 	extra := flag.String("extra", "", "JSON lines file of extra cases {query, from, graph_texts} run against their own store")
+	only := flag.Int("only", -1, "internal: the child runs just this case")
+	flag.BoolVar(&patient, "patient", false, "internal: long watchdog (confirmation of a hang or leak)")
 	flag.Parse()
 	cases := gen(*seed, *n, *exhaust)
 	var runs []runSpec
@@ -499,14 +556,25 @@ func main() {
 		w := bufio.NewWriter(os.Stdout)
 		enc := json.NewEncoder(w)
 		for i := *from; i < total; i += *stride {
+			if *only >= 0 {
+				if i = *only; i >= total {
+					return
+				}
+			}
 			c, sk := runs[i].c, runs[i].store
 			fmt.Fprintf(w, "START %d\n", i)
 			w.Flush()
 			o, d, rows := runOne(sk, &c)
+			for rep := 0; patient && rep < 20 && o != "hang" && o != "leak" && o != "panic"; rep++ {
+				o, d, rows = runOne(sk, &c) // a timing-dependent leak gets twenty more chances to show again
+			}
 			enc.Encode(result{i, c.Kind, sk, c.Text, o, d, rows, lexKindsSafe(c.Text)})
 			w.Flush()
 			if o == "hang" {
 				os.Exit(3) // a goroutine is stuck (possibly spinning): start the next case in a fresh process
+			}
+			if *only >= 0 {
+				return
 			}
 		}
 		return
@@ -515,10 +583,18 @@ func main() {
 	// case that killed it
 	var mu sync.Mutex
 	var wg sync.WaitGroup
+	var suspects []result // hang / leak outcomes of the first pass: confirmed below before they are reported
 	emit := func(line string) {
 		mu.Lock()
+		defer mu.Unlock()
+		if strings.Contains(line, `"outcome":"hang"`) || strings.Contains(line, `"outcome":"leak"`) {
+			var r result
+			if json.Unmarshal([]byte(line), &r) == nil && (r.Outcome == "hang" || r.Outcome == "leak") {
+				suspects = append(suspects, r)
+				return
+			}
+		}
 		fmt.Println(line)
-		mu.Unlock()
 	}
 	W := *workers
 	if W < 1 {
@@ -568,4 +644,37 @@ func main() {
 		}(w)
 	}
 	wg.Wait()
+	// confirmation pass: each suspect alone in a fresh process with the patient watchdog; what that run says is reported.
+	// After three confirmed ones the rest is reported as first seen (the alarm is already certain).
+	confirmed := 0
+	for _, r := range suspects {
+		if confirmed >= 3 {
+			r.Detail = "(not re-run) " + r.Detail
+			b, _ := json.Marshal(r)
+			fmt.Println(string(b))
+			continue
+		}
+		cmd := exec.Command(os.Args[0], "-child", "-patient", "-only", fmt.Sprint(r.Idx), "-seed", fmt.Sprint(*seed), "-n", fmt.Sprint(*n), "-exhaust", fmt.Sprint(*exhaust), "-extra", *extra)
+		var errb strings.Builder
+		cmd.Stderr = &errb
+		out, _ := cmd.Output()
+		var got *result
+		for _, l := range strings.Split(string(out), "\n") {
+			var x result
+			if strings.HasPrefix(l, "{") && json.Unmarshal([]byte(l), &x) == nil {
+				got = &x
+			}
+		}
+		if got == nil { // died in the confirmation run
+			c, sk := runs[r.Idx].c, runs[r.Idx].store
+			msg := errb.String()
+			got = &result{r.Idx, c.Kind, sk, c.Text, "killed", strings.SplitN(msg, "\n", 2)[0] + " @ " + firstFrames(msg), 0, nil}
+		}
+		if got.Outcome == "hang" || got.Outcome == "leak" || got.Outcome == "killed" || got.Outcome == "panic" {
+			confirmed++
+			got.Detail = "confirmed alone in a fresh process (first pass: " + r.Outcome + "): " + got.Detail
+		}
+		b, _ := json.Marshal(got)
+		fmt.Println(string(b))
+	}
 }
